@@ -96,7 +96,7 @@ func (q sreqCase) effB() int {
 
 // does a (gated) handler run for this request?
 func (q sreqCase) handlerRuns() bool {
-	if q.hb {
+	if q.hb || q.refused() != "" {
 		return false
 	}
 	switch q.style {
@@ -127,6 +127,18 @@ func decSreq(s string) sreqCase {
 		omitB: f[8] == "1", badJSON: f[9] == "1", mode: f[10], text: at(11)}
 }
 
+// refused by the connection loop before it is dispatched: "l" by a PostReadRequest plugin (the rate limiters'
+// ErrReqReachLimit; heartbeats too), "a" by AuthFunc (heartbeats are not authenticated)
+func (q sreqCase) refused() string {
+	switch {
+	case q.mode == "limit":
+		return "l"
+	case q.mode == "auth" && !q.hb:
+		return "a"
+	}
+	return ""
+}
+
 // model token for a request
 func (q sreqCase) modelTok(rid int) string {
 	path, meth := q.pathMethod()
@@ -135,6 +147,13 @@ func (q sreqCase) modelTok(rid int) string {
 			return "1"
 		}
 		return "0"
+	}
+	if q.mode == "limit" || q.mode == "auth" {
+		kind, text := "l", 902
+		if q.mode == "auth" {
+			kind, text = "a", 903
+		}
+		return fmt.Sprintf("G:%d:%d:%d:%s:%s:%d:%s:%s:%s:%d", q.conn, rid, q.seq, path, meth, q.ser, b(q.hb), b(q.ow), kind, text)
 	}
 	h := "r0"
 	switch q.mode {
@@ -225,12 +244,16 @@ func srvRunCase(o *common.Out, id string, nconn int, reqs []sreqCase, order []in
 		if !v.isResp || v.seq != q.seq || v.path != path || v.method != meth || v.ser != q.ser {
 			fail("wrong-stamp", fmt.Sprintf("response to request %d: seq=%d path=%s method=%s ser=%d resp=%v; request had seq=%d %s.%s ser=%d", rid, v.seq, v.path, v.method, v.ser, v.isResp, q.seq, path, meth, q.ser))
 		}
-		if q.hb {
+		if q.hb && q.refused() == "" {
 			return
 		}
 		wantErr := ""
 		exact := true
 		switch {
+		case q.refused() == "l":
+			wantErr = server.ErrReqReachLimit.Error()
+		case q.refused() == "a":
+			wantErr = srvAuthText
 		case q.style == "nosvc":
 			wantErr = "rpcx: can't find service NoSvc"
 		case q.style == "nometh":
@@ -274,6 +297,7 @@ func srvRunCase(o *common.Out, id string, nconn int, reqs []sreqCase, order []in
 		}
 	}
 	gatedIDs := map[int]bool{}
+	authClosed := map[int]bool{} // connections on which a request failed authentication: the server closes them
 	// the schedule: every request is sent (S) and, if a gated handler runs for it, released (R).
 	// Default: send all, then release in the given completion order.  A negative entry -k-1 in
 	// `order` means "send request k now": that lets a case interleave sends and completions.
@@ -282,10 +306,20 @@ func srvRunCase(o *common.Out, id string, nconn int, reqs []sreqCase, order []in
 		model = append(model, q.modelTok(rid))
 		ps := q.payload(rid)
 		path, meth := q.pathMethod()
+		meta := []refcodec.KV{{K: []byte("rid"), V: []byte(strconv.Itoa(rid))}}
+		switch q.mode {
+		case "limit":
+			meta = append(meta, refcodec.KV{K: []byte("x-limit"), V: []byte("1")})
+		case "auth":
+			meta = append(meta, refcodec.KV{K: []byte(share.AuthKey), V: []byte("deny")})
+		}
 		if err := peers[q.conn].send(reqSpec{seq: q.seq, path: path, method: meth, ser: q.ser, hb: q.hb, oneway: q.ow, payload: ps,
-			meta: []refcodec.KV{{K: []byte("rid"), V: []byte(strconv.Itoa(rid))}}}); err != nil {
+			meta: meta}); err != nil {
 			fail("connection-closed", fmt.Sprintf("sending request %d: %v", rid, err))
 			return false
+		}
+		if q.refused() == "a" {
+			authClosed[q.conn] = true
 		}
 		if q.handlerRuns() {
 			select {
@@ -299,7 +333,7 @@ func srvRunCase(o *common.Out, id string, nconn int, reqs []sreqCase, order []in
 			}
 		} else {
 			model = append(model, fmt.Sprintf("D:%d", rid))
-			if !q.ow || q.hb {
+			if (!q.ow || q.hb) && !(q.refused() != "" && q.ow) {
 				expect(rid)
 			}
 		}
@@ -371,7 +405,7 @@ func srvRunCase(o *common.Out, id string, nconn int, reqs []sreqCase, order []in
 	// a router handler is user code that runs for every request routed to it, also when it then fails to bind its
 	// arguments and also for one-way requests, which nothing else waits for: wait until it has been noted
 	for rid, q := range reqs {
-		if q.style == "router" && !q.hb && !q.handlerRuns() {
+		if q.style == "router" && !q.hb && !q.handlerRuns() && q.refused() == "" {
 			deadline := time.Now().Add(3 * time.Second)
 			for time.Now().Before(deadline) {
 				rig.h.mu.Lock()
@@ -398,6 +432,13 @@ func srvRunCase(o *common.Out, id string, nconn int, reqs []sreqCase, order []in
 	}
 	// nothing else may be on any connection: a heartbeat's echo must be the very next frame
 	for c, p := range peers {
+		if authClosed[c] {
+			// after the answer to the request that failed authentication nothing more may arrive, and the server closes
+			if f := p.next(40 * time.Millisecond); f != nil {
+				fail("extra-response", fmt.Sprintf("connection %d carries an extra frame after a failed authentication: %s", c, showView(viewFrame(f), nil, -1)))
+			}
+			continue
+		}
 		if err := p.send(reqSpec{seq: 999999, hb: true, ser: 1, payload: []byte("hb")}); err != nil {
 			fail("connection-closed", fmt.Sprintf("connection %d was closed by the server", c))
 			continue
@@ -834,6 +875,9 @@ func genSreq(prop string, r *common.Rand, nconn int) sreqCase {
 	if q.mode == "panic" && q.text == 4 {
 		q.text = 1 // keep panic stack messages small
 	}
+	if prop == "C04" && r.Chance(7) {
+		q.mode = "limit" // refused by a PostReadRequest plugin before it is dispatched, whatever else it is
+	}
 	return q
 }
 
@@ -918,17 +962,20 @@ func runSrv(prop string, r *common.Rand, tier string, o *common.Out, replay stri
 		// an ordinary request on the same connection (what a one-way request must NOT produce is a frame)
 		k := 0
 		for _, style := range []string{"method", "pooled", "pooledv", "func", "funcp", "router", "nosvc", "nometh"} {
-			for _, end := range []string{"ok", "err", "panic", "veto", "badjson", "ser9"} {
+			for _, end := range []string{"ok", "err", "panic", "veto", "badjson", "ser9", "limit", "auth"} {
 				for _, ow := range []bool{false, true} {
 					if end == "veto" && (style == "router" || style == "nosvc" || style == "nometh") {
+						continue
+					}
+					if (end == "limit" || end == "auth") && prop != "C04" {
 						continue
 					}
 					q := sreqCase{conn: 0, seq: 41, style: style, ser: 1, a: 3, b: 4, mode: "ok", ow: ow}
 					switch end {
 					case "err", "panic":
 						q.mode, q.text = end, 1
-					case "veto":
-						q.mode = "veto"
+					case "veto", "limit", "auth":
+						q.mode = end
 					case "badjson":
 						q.badJSON = true
 					case "ser9":
@@ -936,7 +983,13 @@ func runSrv(prop string, r *common.Rand, tier string, o *common.Out, replay stri
 					}
 					k++
 					reqs := []sreqCase{q, {conn: 0, seq: 42, style: "method", ser: 1, a: 5, b: 6, mode: "ok"}}
-					srvRunCase(o, fmt.Sprintf("mx%d", k), 1, reqs, []int{0, 1}, k%3 == 0, false)
+					ord := []int{0, 1}
+					if end == "auth" {
+						// the connection is closed after the refusal: the ordinary request goes first and is completed first
+						reqs = []sreqCase{reqs[1], q}
+						ord = []int{-1, 0, -2, 1}
+					}
+					srvRunCase(o, fmt.Sprintf("mx%d", k), 1, reqs, ord, k%3 == 0, false)
 					o.Count("style-by-ending-matrix")
 				}
 			}
@@ -955,6 +1008,19 @@ func runSrv(prop string, r *common.Rand, tier string, o *common.Out, replay stri
 		var reqs []sreqCase
 		for j := 0; j < k; j++ {
 			reqs = append(reqs, genSreq(prop, r, nconn))
+		}
+		if prop == "C04" && r.Chance(12) {
+			// a request that fails authentication, on a connection of its own (the server closes it), possibly after a
+			// heartbeat carrying the same token (heartbeats are not authenticated)
+			if r.Chance(40) {
+				reqs = append(reqs, sreqCase{conn: nconn, seq: r.U64(), style: "method", ser: 1, hb: true, mode: "auth"})
+			}
+			aq := genSreq(prop, r, 1)
+			aq.conn, aq.mode, aq.hb = nconn, "auth", false
+			reqs = append(reqs, aq)
+			nconn++
+			k = len(reqs)
+			o.Count("failed-authentication")
 		}
 		order := make([]int, k)
 		for j := range order {
